@@ -22,7 +22,7 @@ func vrC05Coverer() *RegionCoverer {
 	rc := &RegionCoverer{MinLevel: vr.Int("minLevel"), MaxLevel: vr.Int("maxLevel"), LevelMod: vr.Int("levelMod"), MaxCells: vr.Int("maxCells")}
 	top := 2
 	if vr.Thorough() {
-		top = 4
+		top = 3
 	}
 	vr.Assume(vr.And(vr.And(rc.MinLevel >= 0, rc.MinLevel <= rc.MaxLevel), rc.MaxLevel <= top))
 	vr.Assume(vr.And(rc.LevelMod >= 1, rc.LevelMod <= 3))
@@ -115,7 +115,7 @@ func Harness_C05_fast_covering_levels() {
 	rc := &RegionCoverer{MinLevel: vr.Int("minLevel"), MaxLevel: vr.Int("maxLevel"), LevelMod: vr.Int("levelMod"), MaxCells: vr.Int("maxCells")}
 	top := 6
 	if vr.Thorough() {
-		top = 10
+		top = 8
 	}
 	vr.Assume(vr.And(vr.And(rc.MinLevel >= 0, rc.MinLevel <= rc.MaxLevel), rc.MaxLevel <= top))
 	vr.Assume(vr.And(rc.LevelMod >= 1, rc.LevelMod <= 3))
